@@ -7,11 +7,13 @@ import BufrModel.Drv.JsonUtil
 import BufrModel.Drv.State
 import BufrModel.Drv.BitsOp
 import BufrModel.Drv.PathOp
+import BufrModel.Drv.CacheOp
 open Lean Bufr.Drv
 
 /-- stateless operations: one line per op (keep sorted by property to ease merging) -/
 def statelessOps : List (String × (Json → J Json)) := [
   ("bits", opBits),
+  ("cache", opCache),
   ("path", opPath),
   ("path-enum", opPathEnum)
 ]
